@@ -524,7 +524,7 @@ def fuzz_dict(path):
 
 def fuzz_worker(job):
     bindir, target, idx, runs = job
-    cap_s = 240 if runs < 1000000 else 1800     # budget cap (not a verdict): a run that grows a slow corpus ends here; the executions done are reported
+    cap_s = 100 if runs < 1000000 else 1800     # budget cap (not a verdict): a run that grows a slow corpus ends here; the executions done are reported
     rng = sub_rng(PROP, 'fuzz', target, idx)
     part = Partial()
     wd = scratch('c15f')
